@@ -143,6 +143,7 @@ func init() {
 	RegisterOp("containatt", func(a []string) string { return c10ContainOp("att", a) })
 	RegisterOp("contain808mem", c10MemOp)
 	RegisterOp("parse808age", c10ParseAgeOp)
+	RegisterOp("containgrow", c10GrowOp)
 	RegisterOp("containfd", c10FdOp)
 	RegisterOp("containbuf", c10BufOp)
 }
@@ -1025,6 +1026,72 @@ func c10ParseAgeOp(a []string) string {
 		}
 	}
 	return "ok " + strings.Join(out, " ")
+}
+
+func c10RSSkB(pid int) int {
+	st, err := os.ReadFile(fmt.Sprintf("/proc/%d/status", pid))
+	if err != nil {
+		return -1
+	}
+	for _, l := range strings.Split(string(st), "\n") {
+		if strings.HasPrefix(l, "VmRSS:") {
+			f := strings.Fields(l)
+			if len(f) >= 2 {
+				return atoi(f[1])
+			}
+		}
+	}
+	return -1
+}
+
+// containgrow <808|att> <MB>: the cheap (quick-tier) witness of the unbounded per-connection buffer: a FRESH server with no
+// limit, ONE connection sends <MB> megabytes the server can only buffer, and the resident memory of the process is read
+// before and after; held_mb = how much it grew.  (The thorough tier's containbuf lets the same growth hit an
+// address-space limit and kill the process.)  Implementation side only.
+func c10GrowOp(a []string) string {
+	if len(a) < 2 {
+		return "bad-args"
+	}
+	kind, mb := a[0], atoi(a[1])
+	param := "0"
+	if kind == "att" {
+		param = "1"
+	}
+	child, err := c10StartChild(kind, param)
+	if err != nil {
+		return "no-child " + err.Error()
+	}
+	defer child.Kill()
+	first := c10Served(child, kind, 1, ContainWaitAnswer)
+	before := c10RSSkB(child.cmd.Process.Pid)
+	h, err := net.DialTimeout("tcp", child.Addr, time.Second)
+	if err != nil {
+		return "no-dial"
+	}
+	defer h.Close()
+	if kind == "att" {
+		h.Write(ChunkHead(1, []byte("big"), 0, 0xffffffff))
+	}
+	block := bytes.Repeat([]byte{0x41}, 1<<20)
+	sent := 0
+	for i := 0; i < mb && child.Alive(); i++ {
+		h.SetWriteDeadline(time.Now().Add(5 * time.Second))
+		if _, err := h.Write(block); err != nil {
+			break
+		}
+		sent++
+	}
+	grew := 0
+	for t0 := time.Now(); time.Since(t0) < 3*time.Second; time.Sleep(20 * time.Millisecond) {
+		if after := c10RSSkB(child.cmd.Process.Pid); after >= 0 && before >= 0 {
+			grew = (after - before) / 1024
+			if grew >= sent*3/4 {
+				break
+			}
+		}
+	}
+	served := child.Alive() && c10Served(child, kind, 2, ContainWaitAnswer)
+	return fmt.Sprintf("ok alive=%d first=%d served=%d sent_mb=%d held_mb=%d", b2i(child.Alive()), b2i(first), b2i(served), sent, grew)
 }
 
 // C10Long is a well-behaved session that stays open across many scripts (direct oracle only): every Ping sends
